@@ -440,10 +440,14 @@ KINDS_READS = ["snp", "snp", "snp", "ins", "del", "mnp"]
 
 @st.composite
 def db_specs(draw, kinds=KINDS_READS, max_sites=10, max_alleles=9, sv=True, pseudo=None, dual_opposite=None, gaps=True,
-             chrs=("7",), stress=False, small=False, name="GA", force_sv=False, twins=False, orphan_core=False, echo=False, keep_lost=False, edge=False):
+             chrs=("7",), stress=False, small=False, name="GA", force_sv=False, twins=False, orphan_core=False, echo=False, keep_lost=False, edge=False, many_exons=False):
     n_ex = draw(st.integers(2, 3 if small else 4))
     elen = st.sampled_from([30, 45, 60, 90] if small else [30, 60, 90, 120, 150])
     ilen = st.integers(40, 90) if small else st.integers(40, 220)
+    if many_exons and draw(st.integers(0, 3)) == 0:
+        # 10-12 exons: region names of which one is contained in another (e1 / e10, i1 / i11)
+        n_ex = draw(st.integers(10, 12))
+        elen, ilen = st.sampled_from([30, 45]), st.integers(40, 60)
     spec = {
         "seed": draw(st.integers(0, 2 ** 30)),
         "name": name,
@@ -506,7 +510,15 @@ def db_specs(draw, kinds=KINDS_READS, max_sites=10, max_alleles=9, sv=True, pseu
                     svs.append({"sites": draw(st.lists(st.integers(0, ns - 1), max_size=2)) if draw(st.booleans()) else [],
                                 "sv": [kind, draw(st.integers(0, 8))]})
         if stress and draw(st.booleans()):
-            svs.append({"sites": draw(st.lists(st.integers(0, ns - 1), max_size=2)), "sv": ["custom", draw(st.lists(st.integers(0, 8), min_size=1, max_size=2))]})
+            first_custom = draw(st.lists(st.integers(0, 30), min_size=1, max_size=2))
+            if n_ex >= 10 and draw(st.booleans()):
+                # regions e10 / i10 / e11 (their names contain the names e1 / i1)
+                first_custom = draw(st.lists(st.sampled_from([19, 20, 21][:1 + 2 * (n_ex >= 11)]), min_size=1, max_size=2, unique=True))
+            svs.append({"sites": draw(st.lists(st.integers(0, ns - 1), max_size=2)), "sv": ["custom", first_custom]})
+            if draw(st.booleans()):
+                # a second partial deletion that removes as many regions as the first one, elsewhere
+                shift = draw(st.integers(1, 7))
+                svs.append({"sites": draw(st.lists(st.integers(0, ns - 1), max_size=2)), "sv": ["custom", [x + shift for x in first_custom]]})
         alls += svs
     spec["alleles"] = alls
     if orphan_core:
